@@ -38,7 +38,10 @@ func TestMain(m *testing.M) {
 			"SQL order is defined by the engine's TypedValue.Compare; it is cross-checked against an independent comparator (integers, IEEE < on non-NaN floats, bytes.Compare for VARCHAR/BLOB/UUID, false<true, instants) and any disagreement fails the check",
 			"NaN is left out of order checks (Compare(NaN,x) = -1 in both directions, the property quantifier lists -0 and infinities only); NaN is kept in the round-trip checks (bitwise)",
 			"TIMESTAMP values are generated at microsecond precision in UTC (every engine constructor truncates to microseconds); nanosecond components are never generated",
-			"JSON values are generated as produced by parsing JSON text (float64 numbers, valid UTF-8 strings); int64 numbers inside JSON (CAST of an INTEGER) come back as float64 and are not generated",
+			"JSON values are generated as produced by parsing JSON text (float64 numbers, valid UTF-8 strings); int64 numbers inside JSON (CAST of an INTEGER) come back as float64 and are not generated; a top-level JSON null is the SQL NULL and is not generated as a value",
+			"FLOAT equality after a round trip is bitwise, except that -0.0 and 0.0 (one SQL value, Compare = 0) may come back as either zero",
+			"VARCHAR values sent through the protobuf conversions are valid UTF-8 (proto3 string fields refuse anything else at Marshal time); the embedded codecs are exercised with arbitrary bytes",
+			"rows are written with UPSERT and parameters; UUID columns take CAST(@p AS UUID) (there is no UUID parameter type)",
 			"TxHeader: v0 NEntries <= 65535 and empty metadata, v1 NEntries <= 2^32-1 for the byte codec and <= 2^31-1 for the proto conversion (int32 field); ID >= 1, BlTxID < ID, NEntries >= 1 as ReadFrom requires",
 			"TxMetadata truncated-tx-id 0 is generated for the byte codec only: the proto conversion represents 'absent' as 0 and the truncator never writes 0",
 			"KVMetadata expiration is generated at whole seconds (the API takes int64 seconds)",
